@@ -91,7 +91,11 @@ func runJournal(t *testing.T, c jcase) (err error) {
 			return
 		}
 		for _, ch := range chunks {
+			checked := 0
 			for ip := range ch.ips {
+				if checked++; checked > 40 {
+					break // a sample per chunk: the journal of a bulk chunk is hundreds of kilobytes long
+				}
 				if s := ipText(ip); strings.Contains(journal, s) {
 					err = fmt.Errorf("journal contains recorded address %q in clear", s)
 					return
@@ -129,7 +133,11 @@ func runJournal(t *testing.T, c jcase) (err error) {
 		// a different masking key must give different sketches for the same (non-empty) set
 		if len(chunks[0].ips) > 0 {
 			a, b := ipsetsink.NewIPSetSink(c.Key), ipsetsink.NewIPSetSink(c.Key+"x")
+			n := 0
 			for ip := range chunks[0].ips {
+				if n++; n > 200 {
+					break
+				}
 				a.AddIPToSet(ipText(ip))
 				b.AddIPToSet(ipText(ip))
 			}
@@ -178,7 +186,7 @@ func TestVerifC19Journal(t *testing.T) {
 			}
 			if rapid.IntRange(0, 30).Draw(rt, "bulk") == 30 {
 				a.IP = rapid.IntRange(1000, 100000).Draw(rt, "bulkbase")
-				a.Rep = rapid.SampledFrom([]int{200, 3000}).Draw(rt, "bulkn")
+				a.Rep = rapid.SampledFrom([]int{200, 3000, 3000, 3000, 70000}).Draw(rt, "bulkn")
 			}
 			total += a.Gap
 			edges = append(edges, total)
